@@ -56,6 +56,10 @@ def walk(fb, name, found, n=3):
             if c.endswith("HashMap::contains_key"):
                 ev["lookups"].append(a0.tag)
                 return (a0.tag in found) if is_name(a[1]) else absint.UNKNOWN
+            if c.endswith("HashMap::is_empty"):
+                return a0.tag not in found            # (a frame of `found` binds the name: it binds something)
+            if c.endswith("HashMap::len"):
+                return 1 if a0.tag in found else 0
             if c.endswith("HashMap::get") or c.endswith("HashMap::get_mut"):
                 ev["lookups"].append(a0.tag)
                 if not is_name(a[1]):
@@ -118,12 +122,14 @@ def walk(fb, name, found, n=3):
         if isinstance(target, Tok) and target.kind == "slot":
             ev["stores"].append((target.tag, val is VALUE))
     mc = machine.Machine(fb, intercept=intercept, max_visits=n + 2, budget=60, on_store=on_store)
+    head = chain(n)
     try:
-        res = mc.run(f, [chain(n), NAME, VALUE][:max(1, f.arg_count)] if f.arg_count <= 3 else [chain(n), NAME, VALUE] + [absint.UNKNOWN] * (f.arg_count - 3))
+        res = mc.run(f, [head, NAME, VALUE][:max(1, f.arg_count)] if f.arg_count <= 3 else [head, NAME, VALUE] + [absint.UNKNOWN] * (f.arg_count - 3))
     except (absint.Stuck, absint.Loop) as e:
         return {"stuck": str(e), **ev}
     ev["panics"] = [e[1] + " in " + e[2] for e in mc.events if e[0] == "panic"]
     out = dict(ev)
+    out["_value"], out["_head"] = res, head
     if isinstance(res, absint.Enum):
         out["result"] = getattr(res, "name", None) or str(res.variant)
         names = set()
@@ -187,6 +193,50 @@ def subsets(n=3):
         yield frozenset(i for i in range(n) if m >> i & 1)
 
 
+def rule_new_child(ctx, fb, rule, n=3):
+    """LexicalScope::new_child(P) on a chain P -> F1 -> F2 where every subset of the frames binds something: the new frame's parent is
+    P itself — also when P binds nothing (yet): definitions made in P later must be visible from the child.  -> rows decided"""
+    from .ctx import where_of
+    try:
+        f = fb.find(SCOPE + "new_child")
+    except mir.AnchorMissing as e:
+        ctx.undecided(rule, "new_child", str(e))
+        return 0
+    rows = 0
+    for found in subsets(n):
+        key = "new_child/frames-that-bind-something=%s" % sorted(found)
+        r = walk(fb, "new_child", found, n)
+        if "stuck" in r:
+            ctx.undecided(rule, key, "cannot follow LexicalScope::new_child (%s)" % r["stuck"], where_of(f))
+            continue
+        v, head = r.get("_value"), r.get("_head")
+        fields = v.fields if isinstance(v, absint.Enum) else (v if isinstance(v, list) else None)
+        par = None
+        for x in (fields or []):
+            if isinstance(x, absint.Enum) and x.variant == 1 and x.fields:
+                par = x.fields[0]
+        if fields is None or par is None:
+            ctx.undecided(rule, key, "the frame new_child builds is not a (parent, table) pair with a parent (%r)" % (v,), where_of(f))
+            continue
+        rows += 1
+        good = par is head
+        ctx.inst(rule, key, {"parent_is_the_argument": bool(good)})
+        ctx.oblige(bool(good))
+        if not good:
+            which = None
+            fr, i = head, 0
+            while isinstance(fr, list) and i < n:
+                if par is fr:
+                    which = i
+                nxt_ = fr[0]
+                fr = nxt_.fields[0] if isinstance(nxt_, absint.Enum) and nxt_.variant == 1 and nxt_.fields else None
+                i += 1
+            ctx.report(rule, key, "new_child(P), with the frames %s of the chain P -> F1 -> F2 binding something, hangs the new frame on %s instead "
+                       "of P: names defined in P after the child was made (internal definitions of the body a closure was made in) are "
+                       "invisible from it" % (sorted(found), ("frame %d of the chain" % which) if which is not None else "another frame"), where_of(f))
+    return rows
+
+
 def table(ctx, fb, rule, name, n=3):
     """check the primitive against the innermost-binding semantics; returns number of rows"""
     f = fb.find(SCOPE + name)
@@ -197,7 +247,8 @@ def table(ctx, fb, rule, name, n=3):
         r = walk(fb, name, found, n)
         inner = min(found) if found else None
         key = "%s/bound-in=%s" % (name, sorted(found))
-        ctx.inst(rule, key, {k: (v if not isinstance(v, list) else [list(x) if isinstance(x, tuple) else x for x in v]) for k, v in r.items()})
+        ctx.inst(rule, key, {k: (v if not isinstance(v, list) else [list(x) if isinstance(x, tuple) else x for x in v]) for k, v in r.items()
+                             if not k.startswith("_")})
         if "stuck" in r:
             ctx.undecided(rule, key, "cannot follow LexicalScope::%s on a chain where frames %s bind the name (%s)" % (name, sorted(found), r["stuck"]), where_of(f))
             continue
